@@ -141,14 +141,7 @@ fn real_main() -> i32 {
     // complete f32 space: RgbHue<f32> always (radian accessors there only in thorough); the
     // other four f32 hue types complete in thorough, every 64th pattern (different phases, all
     // checks incl. radians) in quick; the f32 set embedded in f64 every 256th / 8th pattern.
-    let prof = std::env::var("C11_PROF").unwrap_or_default();
-    let hot = if !prof.is_empty() {
-        Flags { radians: prof.contains('r'), u8c: prof.contains('u'), pairs: if prof.contains('p') { 1 } else { 0 } }
-    } else if thorough {
-        HOT
-    } else {
-        HOT_QUICK
-    };
+    let hot = if thorough { HOT } else { HOT_QUICK };
     walk::walk::<ops::RgbF32>(&ctx, &mut total, 1, 0, hot);
     let s32 = if thorough { 1 } else { 64 };
     let f32fl = if thorough { HOT } else { ALL };
